@@ -28,17 +28,27 @@ def parse_eval_log(msg):
     return None
 
 
-def body_evalobj(E, n, m, with_h, preset, xr=False):
+def body_evalobj(E, n, m, with_h, preset, xr=False, scaling=False):
     log = EvalLog()
     objfun = mk_objfun(E, m, log, xr=xr)
-    C, M, ghost, params = mk_controller(E, n, m, n + 1, n + 1, preset=preset, with_h=with_h, with_save=False, objfun=objfun, xr=xr)
+    C, M, ghost, params = mk_controller(E, n, m, n + 1, n + 1, preset=preset, with_h=with_h, with_save=False, objfun=objfun, xr=xr,
+                                         scaling=scaling)
     C.do_logging = True
     logged = []
     E.hooks(log=lambda level, msg: logged.append(parse_eval_log(msg)))
     nf0, nx0, maxfun = C.nf, C.nx, C.maxfun
     want = int(E.int('want', 1, 3))
     x = E.vec('xq', n)
+    if with_h:
+        del M.h.calls[:]
     r, o, run, exit_info = C.evaluate_objective(x, want, params)
+    x_user = x
+    if scaling:
+        sh, sc_, up = C.scaling_changes
+        raw = sh + x * sc_
+        x_user = [E.ite(raw[i] < sh[i], sh[i], E.ite(raw[i] > up[i], up[i], raw[i])) for i in range(n)]
+    if with_h and M.h.calls:
+        E.prove(E.all([E.all([E.eq(hx[i], x_user[i]) for i in range(n)]) for (hx, _) in M.h.calls]), 'C06:evalobj:h-is-evaluated-at-the-user-space-point')
     logged = [t for t in logged if t is not None]
     calls = len(log.calls)
     E.prove(C.nf - nf0 == calls, 'nf-counts-calls')
@@ -52,7 +62,9 @@ def body_evalobj(E, n, m, with_h, preset, xr=False):
                 (exit_info is not None and 'sufficiently small' in exit_info.msg), 'short-count-only-by-budget')
         E.prove(C.nf == maxfun, 'short-count-means-budget-exhausted')
     for k, c in enumerate(log.calls):
-        E.prove(E.all([E.eq(c['x'][j], x[j]) for j in range(n)]), 'every-sample-gets-identical-x')
+        E.prove(E.all([E.eq(c['x'][j], x_user[j]) for j in range(n)]), 'every-sample-gets-identical-x')
+        if scaling:
+            E.prove(E.all([E.eq(c['x'][j], x_user[j]) for j in range(n)]), 'C01:evalobj:objfun-receives-the-point-un-scaled-to-user-units')
         for j in range(m):
             E.prove(E.same(r[k, j], c['r'][j]), 'returned-rows-are-the-residuals-received')
     E.prove(len(logged) == calls, 'one-log-line-per-call')
@@ -64,7 +76,7 @@ def body_evalobj(E, n, m, with_h, preset, xr=False):
         mean = [sum(log.calls[k]['r'][j] for k in range(calls)) / calls for j in range(m)]
         f = sum(v * v for v in mean)
         if with_h:
-            f = f + M.h(x)
+            f = f + M.h(x_user if not scaling else E.arr(x_user))
         thresh = E.ite(M.rel_tol * M.objbeg > M.abs_tol, M.rel_tol * M.objbeg, M.abs_tol)
         if not xr:
             E.prove(E.le(f, thresh, tol=0), 'C10:small-objective-exit-is-true')
@@ -222,6 +234,10 @@ def harnesses(tier, seed):
                                   params=dict(n=n, m=m, with_h=with_h, preset=preset), cfg=cfg, functions=FUNCS,
                                   bounds="n=%d, m=%d, any nx <= nf <= maxfun, 1..3 samples requested" % (n, m), assumptions=common,
                                   expect=['nf-counts-calls', 'logged-eval-numbers-consecutive', 'short-count-means-budget-exhausted'], nproc=1))
+            hs.append(Harness("evaluate_objective[n=%d,m=%d,h=%d,default,scaling]" % (n, m, with_h), 'dfverif.checks.c02', 'body_evalobj',
+                              params=dict(n=n, m=m, with_h=with_h, preset='default', scaling=True), cfg=core.Cfg(qtimeout_ms=20000, uflin=True), functions=FUNCS,
+                              bounds="n=%d, m=%d, internal scaling record (lower, upper-lower, upper) symbolic" % (n, m), assumptions=common,
+                              expect=['nf-counts-calls'], nproc=1))
             if not with_h:
                 hs.append(Harness("evaluate_objective[n=%d,m=%d,h=0,default,bad-values]" % (n, m), 'dfverif.checks.c02', 'body_evalobj',
                                   params=dict(n=n, m=m, with_h=False, preset='default', xr=True), cfg=core.Cfg(qtimeout_ms=20000, uflin=True), functions=FUNCS,
